@@ -15,3 +15,4 @@ import Boario.Properties.FormulasProduction
 import Boario.Properties.FormulasDistribute
 import Boario.Properties.FormulasOrders
 import Boario.Properties.FormulasCurves
+import Boario.Properties.FormulasLedger
